@@ -5,6 +5,7 @@ function asynchronously and terminiate if it exceeds a given `duration`.
 
 import sys
 import time
+import os
 
 try:
     import threading
@@ -14,6 +15,19 @@ try:
     import ctypes
 except BaseException:
     ctypes = None
+
+
+# Verification hook: a callback that an external checker may install to force
+# a particular interleaving of the waiting thread and the timed-out thread.
+# Does nothing unless the environment variable PEDAL_EDU_PEDAL_VERIF is set
+# and a callback has been installed.
+_VERIF_SYNC = None
+
+
+def _verif_sync(point, *info):
+    """ Report reaching the named synchronisation `point` to the checker. """
+    if _VERIF_SYNC is not None and os.environ.get("PEDAL_EDU_PEDAL_VERIF"):
+        _VERIF_SYNC(point, *info)
 
 
 class InterruptableThread(threading.Thread):
@@ -85,9 +99,12 @@ def timeout(duration, func, *args, **kwargs):
     target_thread = InterruptableThread(func, args, kwargs)
     target_thread.start()
     target_thread.join(duration)
+    _verif_sync("grader:timer", target_thread)
 
     if target_thread.is_alive():
+        _verif_sync("grader:decided", target_thread)
         target_thread.terminate()
+        _verif_sync("grader:terminated", target_thread)
         timeout_exception = TimeoutError('Your code took too long to run '
                                          '(it was given {} seconds); '
                                          'maybe you have an infinite loop?'.format(duration))
